@@ -187,7 +187,7 @@ def run(chk):
                 "two-track blocks), plus long random tracks and multi-track blocks; observation = segment tables parsed "
                 "from the written bytes with struct, and the decoded frames (NaN mask + bit patterns) under three "
                 "different pre-fills of numpy.empty; compared with Segments.chunks and the model decoder; "
-                "non-trivial = at least one gap and one present frame" % (8 if chk.tier == "quick" else 11))
+                "also: blocks built, used (sized / encoded / compared / printed), then edited IN PLACE to another content of the same shape and used again; non-trivial = at least one gap and one present frame" % (8 if chk.tier == "quick" else 11))
     chk.assumptions = ["'any process memory state' is modelled as 'any content of the buffer numpy.empty returns'"]
     corpus = codec.load_corpus("C05")
     chk.count("corpus", len(corpus))
@@ -202,6 +202,7 @@ def run(chk):
         cases.append(one_track_block(kind, rng, blocks.rmask(rng, n), ntracks=rng.choice((1, 2, 3))))
     chk.count("long tracks", nlong)
     check_cases(chk, cases)
+    codec.check_inplace(chk, "C05", 200 if chk.tier == "quick" else 3000)
     chk.exhaustive = True
     chk.extra["exhaustive_scope"] = "all 2^n masks, n <= %d, per kind" % (8 if chk.tier == "quick" else 11)
 
